@@ -2234,5 +2234,50 @@ end Goml.Gen
 
 EXTRACTORS += [gocomp_gen_tables]
 
+
+# ---------------------------------------------------------------- unify: shape of typer/unify.rs (arms of `unify`, diagnostics)
+def unify_gen_shape():
+    """the sequence of arms of the `match (&l_norm, &r_norm)` in `Typer::unify` (constructor pairs, in source order)
+    and the diagnostic messages `occurs` / `unify` push (text up to the first `{`), in source order"""
+    t = src("crates/compiler/src/typer/unify.rs")
+    try:
+        o0, o1 = t.index("fn occurs("), t.index("fn substitute_ty_params(")
+        u0, u1 = t.index("    fn unify(&mut self"), t.index("    pub(crate) fn fresh_ty_var")
+        n0 = t.index("    fn norm(&mut self")
+    except ValueError:
+        raise Exception("anchor lost: typer/unify.rs fn occurs / fn norm / fn unify / fn fresh_ty_var")
+    if not (o0 < o1 < n0 < u0 < u1):
+        raise Exception("anchor lost: order of occurs / norm / unify in typer/unify.rs")
+    reg = t[u0:u1]
+    if "let l_norm = self.norm(l);\n        let r_norm = self.norm(r);\n        match (&l_norm, &r_norm) {" not in reg:
+        raise Exception("anchor lost: unify no longer starts with norm(l); norm(r); match (&l_norm, &r_norm)")
+    arms, acc = [], None
+    for line in reg.split("\n"):
+        if acc is None and re.match(r"^ {12}(\(|\| \(|_ =>)", line):
+            acc = ""
+        if acc is not None:
+            acc += line + "\n"
+            if "=>" in line:
+                cs = re.findall(r"tast::Ty::(\w+)", acc.split("=>")[0])
+                arms.append(",".join(cs) if cs else "_")
+                acc = None
+    msgs = [m.strip().rstrip(":") for m in re.findall(r'format!\(\s*"([^"{]*)', t[o0:o1]) + re.findall(r'format!\(\s*"([^"{]*)', reg)]
+    if len(arms) < 10 or len(msgs) < 5:
+        raise Exception(f"unify.rs: unexpected shape (arms={len(arms)}, messages={len(msgs)})")
+    q = lambda s: '"' + s.replace("\\", "\\\\").replace('"', '\\"') + '"'
+    write_if_changed("UnifyShape.lean", GEN_HEADER.format(src="crates/compiler/src/typer/unify.rs") + f"""
+namespace Goml.Gen
+
+/-- the arms of `match (&l_norm, &r_norm)` in `Typer::unify`, in source order (the constructors named in each pattern) -/
+def unifyArms : List String := [{", ".join(q(a) for a in arms)}]
+
+/-- the diagnostics `occurs` and `unify` push, in source order (text before the first placeholder) -/
+def unifyMessages : List String := [{", ".join(q(m) for m in msgs)}]
+
+end Goml.Gen
+""")
+
+EXTRACTORS += [unify_gen_shape]
+
 if __name__ == "__main__":
     main()
